@@ -618,6 +618,12 @@ func runC11(r *Rng, n int, replay string) {
 					c.fail(hdr+fmt.Sprintf(": the open succeeded but served %d bytes (err %v) instead of the %d source bytes", len(got), rerr, len(data)), "fault:"+ft.kind+":first-open-partial")
 				}
 				c.Text = append(c.Text, "first open: ok (failure was immaterial or absorbed)")
+				if ft.kind == "store-call" {
+					// create, every write and the (first) close of the copy are the copy: when one fails the open must say so
+					if mf, _ := modelFault(ft.kind, ft.idx, st0.log, size); mf != "FNone" && mf != "" {
+						c.fail(hdr+": the open reported success although the copy into the cache store failed", "fault:store-call:silent:"+strings.Fields(st0.log[ft.idx])[0])
+					}
+				}
 			} else {
 				c11Results = append(c11Results, "OErr")
 				c.Text = append(c.Text, "first open: "+err.Error())
